@@ -80,7 +80,12 @@ def mk_shift_arg(sh, z):
     # time forms
     q = (vals / z.sample_rate).to(u.s)
     eff = np.asarray((q * z.sample_rate).to_value(u.one), dtype=np.float64)
-    return q, eff, True
+    # a time that is a whole number of samples comes back as k +- rounding after the unit conversions (1.1 ms x 50 kHz =
+    # 55.00000000000001): within 8 eps of a whole number it IS that whole number of samples (the rule of snippet and freq_shift), so exactly
+    # k edge samples are zero; anything farther off is the fractional shift it says it is
+    whole = np.round(eff)
+    near = np.abs(eff - whole) <= 8 * 2.220446049250313e-16 * np.abs(eff)
+    return q, np.where(near, whole, eff), False
 
 
 def reference(x, eff, use_ld=True):
